@@ -1,4 +1,5 @@
 #!/bin/bash
+# (needs the scratch worktree: git -C /repo worktree add --detach /tmp/wt HEAD; remove it afterwards with git -C /repo worktree remove --force /tmp/wt && rm -rf /tmp/wt-target)
 # tools/verify_seed.sh <patch.diff> <demo.rs> : in the clean scratch worktree /tmp/wt confirm that
 #  (1) the patch applies, (2) the 1032-test baseline passes with it, (3) the demo fails with it,
 #  (4) the demo passes without it. Leaves /tmp/wt clean.
